@@ -12,7 +12,7 @@ import hashlib, json, os, shutil
 
 from .. import gen
 from ..cli import run_cli, parse_tree
-from ..common import Inconclusive
+from ..common import write_tree, Inconclusive
 from ..runner import vh_bin, srv_bin, materialize
 from ..twins import norm_queries, keyed_queries, keyed_diff, brief
 from ..vh import VH, strip_root
@@ -112,9 +112,59 @@ def run(ctx):
                 processes(ctx, pws, set(), set())
                 shutil.rmtree(proot, ignore_errors=True)
             shutil.rmtree(root, ignore_errors=True)
+        for j in range(1 if quick else 10):
+            symbols_across_processes(ctx, j)
     finally:
         vh.close()
     ctx.extra["distinct_snapshots_seen"] = len(snaps_seen)
+
+
+def symbols_across_processes(ctx, j):
+    """a workspace with a few hundred fixtures: the symbol list (workspace/symbol with an empty and a common query,
+    documentSymbol of one conftest) is the same set in every server process, and it is the full set"""
+    from ..lsp import LSP, uri_to_path
+    root = ctx.scratch(f"big{j}")
+    files = {}
+    npk = ctx.rng.randint(10, 16)
+    for p_ in range(npk):
+        body = "import pytest\n\n" + "".join(f"@pytest.fixture\ndef pk{p_}_db_{k}():\n    return {k}\n\n" for k in range(ctx.rng.randint(12, 20)))
+        body += "@pytest.fixture\ndef shared_db():\n    return 0\n"
+        files[f"pkg{p_}/conftest.py"] = body
+        files[f"pkg{p_}/test_m.py"] = f"def test_m(pk{p_}_db_0, shared_db):\n    pass\n"
+    write_tree(root, files)
+    want = set()
+    for rel, t in files.items():
+        for ln, l in enumerate(t.split("\n")):
+            if l.startswith("def ") and rel.endswith("conftest.py"):
+                want.add((l[4:l.index("(")], rel, ln))
+    seen = []
+    for threads in ("1", "4", "16"):
+        srv = LSP(srv_bin(), root, env={"RAYON_NUM_THREADS": threads})
+        try:
+            srv.initialize(timeout=120)
+            got = {}
+            for query in ("", "db"):
+                r = srv.workspace_symbol(query)
+                if not r["answered"]:
+                    raise Inconclusive("workspace/symbol unanswered")
+                got[query] = {(x["name"], os.path.relpath(uri_to_path(x["location"]["uri"]), root), x["location"]["range"]["start"]["line"])
+                              for x in (r.get("result") or [])}
+            seen.append(got)
+        finally:
+            srv.shutdown()
+        for query in ("", "db"):
+            ctx.judged()
+            if got[query] != want:
+                ctx.violation({"kind": "workspace-symbols-incomplete", "query": query, "threads": threads,
+                               "listed": len(got[query]), "defined": len(want)},
+                              {"missing": sorted(want - got[query])[:5], "unexpected": sorted(got[query] - want)[:5]})
+                break
+    ctx.judged()
+    if any(s_ != seen[0] for s_ in seen[1:]):
+        ctx.violation({"kind": "workspace-symbols-differ-between-processes"}, {"sizes": [[len(v) for v in s_.values()] for s_ in seen]})
+    ctx.nontrivial(("symbols_across_processes", len(want) > 128))
+    ctx.count("symbol_fixtures", len(want))
+    shutil.rmtree(root, ignore_errors=True)
 
 
 def tier_permutations(ctx, vh, i, K):
